@@ -207,7 +207,7 @@ def tlc(module, cfg, workers=None, timeout=600, simulate=None, depth=None, seed=
     Lines printed by PrintT(<<"EDGE", json>>) are collected (parsed JSON) in .edges."""
     os.makedirs(BUILD, exist_ok=True)
     meta = os.path.join(BUILD, "tlc_%s_%d_%d" % (os.path.basename(cfg).replace(".cfg", ""), os.getpid(), int(time.time() * 1000) % 100000))
-    jopts = ["-XX:+UseParallelGC", "-Xmx" + xmx]
+    jopts = ["-XX:+UseParallelGC", "-Xmx" + xmx, "-Xss32m"]
     if dfs:
         jopts.append("-Dtlc2.tool.queue.IStateQueue=StateDeque")
     cmd = ["java"] + jopts + ["-cp", TLA_JAR + ":" + TLA_DEPS, "tlc2.TLC", "-metadir", meta,
@@ -256,8 +256,8 @@ def tlc(module, cfg, workers=None, timeout=600, simulate=None, depth=None, seed=
         nm = m.group(1)
         a, b = int(m.group(3)), int(m.group(4))
         if nm in r.coverage:
-            a += r.coverage[nm][0]
-            b += r.coverage[nm][1]
+            a = max(a, r.coverage[nm][0])
+            b = max(b, r.coverage[nm][1])
         r.coverage[nm] = (a, b)
     m = re.search(r"Invariant (\w+) is violated", out)
     if m:
@@ -272,7 +272,12 @@ def tlc(module, cfg, workers=None, timeout=600, simulate=None, depth=None, seed=
         r.violated = "assert"
     if r.rc not in (0,) and r.violated is None:
         # parse / semantic / runtime error in the model itself
-        r.error = out[-3000:] + "\n" + p.stderr[-2000:]
+        errl = []
+        lines = out.splitlines()
+        for i, l in enumerate(lines):
+            if l.startswith("Error:") or "Exception" in l:
+                errl += [x for x in lines[i:i + 12] if not x.startswith('<<"') and not x.startswith("  |")]
+        r.error = "\n".join(errl[:80]) + "\n" + p.stderr[-2000:]
     return r
 
 
